@@ -68,7 +68,7 @@ Qed.
 Lemma u_build_env_sound : forall (P : sym -> Prop) rho loops env env',
   (forall x lo_e hi_e, In (x, lo_e, hi_e) loops ->
       (forall y, occurs y lo_e \/ occurs y hi_e -> P y) /\
-      (forall y, P y -> sname y = sname x -> y = x)) ->
+      (forall y, P y -> sname y = sname x -> rho y = rho x)) ->
   Forall (loop_ok rho) loops ->
   uenv_ok P env rho -> u_build_env loops env = Ok env' -> uenv_ok P env' rho.
 Proof.
@@ -85,7 +85,7 @@ Proof.
     eapply IH; [ | exact HL' | | exact H ].
     + intros x' l' h' I. apply HP. right. exact I.
     + intros y l h Py L. cbn [uenv_lookup] in L. destruct (sname x =? sname y) eqn:E.
-      * apply Z.eqb_eq in E. assert (y = x) by (apply Hname; auto). subst y.
+      * apply Z.eqb_eq in E. rewrite (Hname y Py (eq_sym E)).
         injection L as <- <-. unfold in_itv in *. destruct Il as [Il1 _], Ih as [_ Ih2].
         destruct (fst bl), (snd bh); split; auto; lia.
       * eapply Henv; eauto.
@@ -103,7 +103,7 @@ Proof.
   { eapply u_build_env_sound; eauto.
     - intros x lo_e hi_e I. split.
       + intros y O. right. exists x, lo_e, hi_e. auto.
-      + intros y Py S. eapply HN; eauto.
+      + intros y Py S. f_equal. eapply HN; eauto.
     - intros y l h _ L. discriminate. }
   assert (G : gamma_val r rho v).
   { eapply u_analyze_sound; eauto. intros y l h O. apply Henv. left. exact O. }
@@ -147,39 +147,86 @@ Proof.
   - cbn. intros [b [Hb Hi]]. cbn in Hb. injection Hb as <-. unfold in_itv in Hi; cbn [lo hi] in Hi. lia.
 Qed.
 
-(* bounds_inference: even without any shadowing the reported bound misses accesses, because it folds the
-   accesses with the unsound join (`for i in seq(0, n): x[i] = ..` then `x[3] = ..` reports [0,3]). *)
-Theorem u_bounds_inference_refuted :
-  exists accs rho r loops e v,
-    u_bounds_inference accs = Ok (Some r) /\ In (loops, e) accs /\
-    names_unique loops e /\ Forall (loop_ok rho) loops /\ ieval rho e = Some v /\ ~ gamma_val r rho v.
+(* under a valuation that gives equally named symbols equal values ("distinct symbols in scope have
+   distinct names") nothing can be confused: infer_range and bounds_inference are sound *)
+Theorem u_infer_range_named : forall loops e rho rv v,
+  name_determined rho -> Forall (loop_ok rho) loops ->
+  u_infer_range loops e = Ok rv -> ieval rho e = Some v -> gamma_val rv rho v.
 Proof.
-  exists [([(mksym 1 1, IConst 0, IVar (mksym 2 2))], IVar (mksym 1 1)); ([], IConst 3)],
-         (fun s => if sid s =? 1 then 7 else 10).
-  eexists. exists [(mksym 1 1, IConst 0, IVar (mksym 2 2))], (IVar (mksym 1 1)), 7.
-  split; [vm_compute; reflexivity|]. split; [left; reflexivity|]. split; [|split; [|split]].
-  - intros y x lo_e hi_e R I S. cbn in I. destruct I as [I|[]]. injection I as <- <- <-.
-    destruct R as [O|[x' [l' [h' [I' O]]]]].
-    + cbn in O. exact O.
-    + cbn in I'. destruct I' as [I'|[]]. injection I' as <- <- <-. cbn in O. destruct O as [[]|O].
-      subst y. cbn in S. discriminate.
-  - repeat constructor; cbn; eexists; eexists; (split; [reflexivity|split; [reflexivity|lia]]).
-  - reflexivity.
-  - cbn. intros [b [Hb Hi]]. cbn in Hb. injection Hb as <-. unfold in_itv in Hi; cbn [lo hi] in Hi. lia.
+  intros loops e rho rv v ND HL H E. unfold u_infer_range in H.
+  destruct (u_build_env loops []) as [env|] eqn:B; cbn [bind] in H; try discriminate.
+  destruct (u_analyze env e) as [r|] eqn:A; cbn [bind] in H; try discriminate.
+  assert (Henv : uenv_ok (fun _ => True) env rho).
+  { apply (u_build_env_sound (fun _ => True) rho loops [] env); auto;
+      try (intros y l h _ L; discriminate L).
+    all: intros x lo_e hi_e I0; split; [intros; exact Logic.I|]; intros y _ S; apply ND; exact S. }
+  assert (G : gamma_val r rho v).
+  { eapply u_analyze_sound; eauto. intros y l h O. apply Henv. exact Logic.I. }
+  destruct r; inv_ok H; auto. cbn in G. subst. cbn. exists 0. split; [reflexivity|].
+  unfold create_int, in_itv; cbn [lo hi]. lia.
 Qed.
 
-(* partial_eval_with_range (used by fold-buffer to eliminate a loop variable from an access window):
-   self.lo / self.hi are dropped whenever the stride is non-zero. *)
-Theorem partial_eval_refuted :
-  exists self var rng rv rho v,
-    partial_eval_with_range self var rng = Ok rv /\
-    gamma rng rho (rho var) /\        (* the loop variable ranges over rng *)
-    gamma self rho v /\               (* v is inside the access window for that iteration *)
-    ~ gamma_val rv rho v.
+(* values of the accesses of a list, at the iteration points rho belongs to *)
+Definition acc_value (rho : valuation) (accs : list (list uloop * iexpr)) (v : Z) : Prop :=
+  exists loops e, In (loops, e) accs /\ Forall (loop_ok rho) loops /\ ieval rho e = Some v.
+
+Definition covers (rho : valuation) (S : Z -> Prop) (bound : option rval) : Prop :=
+  forall v, S v -> match bound with Some r => gamma_val r rho v | None => False end.
+
+Lemma u_bounds_inference_from_sound : forall rho, name_determined rho ->
+  forall accs bound res (S : Z -> Prop),
+    u_bounds_inference_from accs bound = Ok res -> covers rho S bound ->
+    covers rho (fun v => S v \/ acc_value rho accs v) res.
 Proof.
-  exists (mkrange (IVar (mksym 1 1)) (Some 0) (Some 3)), (mksym 1 1), (mkrange (IConst 0) (Some 0) (Some 7)).
-  eexists. exists (fun _ => 7), 10. split; [vm_compute; reflexivity|]. split; [|split].
-  - exists 0. split; [reflexivity|]. unfold in_itv; cbn [lo hi]. lia.
-  - exists 7. split; [reflexivity|]. unfold in_itv; cbn [lo hi]. lia.
+  intros rho ND accs. induction accs as [|[loops e] rest IH]; intros bound res S H C; cbn in H.
+  - inv_ok H. intros v [Sv|[l [e [[] _]]]]. apply C. exact Sv.
+  - destruct (u_infer_range loops e) as [cur|] eqn:I; cbn [bind] in H; try discriminate.
+    destruct (u_join bound cur) as [b'|] eqn:J; cbn [bind] in H; try discriminate.
+    assert (Hcur : forall v, Forall (loop_ok rho) loops -> ieval rho e = Some v -> gamma_val cur rho v).
+    { intros v HL E. eapply u_infer_range_named; eauto. }
+    assert (C' : covers rho (fun v => S v \/ (Forall (loop_ok rho) loops /\ ieval rho e = Some v)) b').
+    { unfold u_join in J. destruct bound as [[n|b|]|]; try discriminate.
+      - destruct (ir_or b cur) as [r|] eqn:O; cbn [bind] in J; try discriminate. inv_ok J.
+        destruct cur as [n|c|]; try (unfold ir_or in O; discriminate).
+        intros v [Sv|[HL E]].
+        + eapply ir_or_sound; eauto. { intros M. apply match_e_eval; auto. } left. apply (C v Sv).
+        + eapply ir_or_sound; eauto. { intros M. apply match_e_eval; auto. } right. apply (Hcur v HL E).
+      - inv_ok J. intros v [Sv|[HL E]]. + destruct (C v Sv). + apply (Hcur v HL E). }
+    specialize (IH _ _ _ H C'). intros v [Sv|[l [e' [[In1|In2] [HL E]]]]].
+    + apply IH. left. left. exact Sv.
+    + injection In1 as <- <-. apply IH. left. right. auto.
+    + apply IH. right. exists l, e'. auto.
+Qed.
+
+(* bounds_inference (after the repair of IndexRange.__or__): the reported bound contains the index of
+   every matched access at every iteration point *)
+Theorem u_bounds_inference_sound : forall accs rho r loops e v,
+  name_determined rho ->
+  u_bounds_inference accs = Ok (Some r) -> In (loops, e) accs ->
+  Forall (loop_ok rho) loops -> ieval rho e = Some v -> gamma_val r rho v.
+Proof.
+  intros accs rho r loops e v ND H I HL E. unfold u_bounds_inference in H.
+  pose proof (u_bounds_inference_from_sound rho ND accs None (Some r) (fun _ => False) H) as C.
+  apply (C ltac:(intros ? [])). right. exists loops, e. auto.
+Qed.
+
+Example u_bounds_inference_sound_nonvacuous :
+  let i := mksym 1 1 in let n := mksym 2 2 in
+  u_bounds_inference [([(i, IConst 0, IVar n)], IVar i); ([], IConst 3)]
+  = Ok (Some (RRange (mkrange (IConst 0) (Some 0) None))).
+Proof. vm_compute. reflexivity. Qed.
+
+(* ... but NOT for arbitrary valuations: bases are matched by name (LoopIR_Compare.match_name), so an
+   access through a loop variable that has the name of a free variable hides the access through the free
+   variable (reachable: divide_loop(.., ["o", "n"]) in a proc with a size argument n). *)
+Theorem u_bounds_inference_name_refuted :
+  exists accs rho r loops e v,
+    u_bounds_inference accs = Ok (Some r) /\ In (loops, e) accs /\
+    Forall (loop_ok rho) loops /\ ieval rho e = Some v /\ ~ gamma_val r rho v.
+Proof.
+  exists [([], IVar (mksym 1 1)); ([], IVar (mksym 1 2))], (fun s => if sid s =? 2 then 10 else 0).
+  eexists. exists [], (IVar (mksym 1 2)), 10.
+  split; [vm_compute; reflexivity|]. split; [right; left; reflexivity|]. split; [constructor|]. split.
+  - reflexivity.
   - cbn. intros [b [Hb Hi]]. cbn in Hb. injection Hb as <-. unfold in_itv in Hi; cbn [lo hi] in Hi. lia.
 Qed.
